@@ -10,7 +10,7 @@ from ..model import AnalysisError, norm
 from ..mutants import Mut
 from ..rules import accum, optcall, dim, noop, posbound
 from ..rules.geom import LOOP_INDEX, ClassGeom
-from ..rules.util import lin_str, linear
+from ..rules.util import lin_str, linear, cfg_of, nodes_where
 from ..tables import C09_DIM_EXCEPTIONS, C09_SIZE_EXCEPTIONS
 
 EXPLANATION = (
@@ -25,7 +25,7 @@ EXPLANATION = (
     "the size it was asked about before delegating to it."
     ' Added after seed round 3: (9) ACCUM - the row offsets of Pile.move_cursor_to_coords / mouse_event and ListBox.mouse_event advance for every item passed; (10) Edit.move_cursor_to_coords compares the requested row only with rows derived from the layout (position_coords / get_line_translation).'
     ' Round 4: (11) OPTCALL (see C08.13); C09.10 now requires both bounds of the requested row and reports a missing one.'
-    ' Round-4 triage: (12) Columns hit-testing skips hidden columns like render(); (13) ScrollBar.mouse_event subtracts the bar width from the column under the same side test under which render() draws the bar on the left.'
+    ' Round-4 triage: (12) Columns hit-testing skips hidden columns like render(); (13) ScrollBar.mouse_event subtracts the bar width from the column under the same side test under which render() draws the bar on the left. Round-5 triage: (14) Padding / Filler forward a mouse event only after a bounds test on every size branch.'
 )
 NOT_DECIDED = (
     "Agreement with the rendered canvas cursor (needs canvas semantics), loops of Pile/Columns/ListBox that accumulate offsets (equivalence of different loop shapes is not syntactic), "
@@ -496,6 +496,31 @@ def rule_scrollbar_side(ctx: Ctx) -> RuleResult:
     return rr
 
 
+def rule_hit_test_every_branch(ctx: Ctx) -> RuleResult:
+    """'a mouse event on a cell where a child widget is drawn is delivered to that child ... and to no other': a
+    decoration that puts margins around its child forwards a mouse event only after it has tested the coordinate
+    against the child's extent - on *every* path to the forwarding call, whichever way the size was given (box,
+    flow, fixed).  A branch without the test hands clicks in the margin to the child with coordinates outside it."""
+    p = ctx.p
+    rr = RuleResult("GUARD", "C09.14", "Padding / Filler forward a mouse event only after a bounds test of the shifted coordinate on every path", floor=2)
+    for q, pi in (("urwid.widget.padding.Padding", 4), ("urwid.widget.filler.Filler", 5)):
+        fi = p.cls(q).methods["mouse_event"]
+        coord = fi.params[pi]
+        cfg = cfg_of(fi)
+        fwd_ = nodes_where(cfg, lambda x: isinstance(x, ast.Call) and isinstance(x.func, ast.Attribute) and x.func.attr == "mouse_event" and not (isinstance(x.func.value, ast.Call)))
+        tests = [t for t in cfg.nodes if t.kind == "test" and any(isinstance(c, ast.Compare) and isinstance(c.left, ast.Name) and c.left.id == coord and isinstance(c.ops[0], (ast.Lt, ast.GtE, ast.Gt, ast.LtE)) for c in ast.walk(t.ast)) and any(x.kind == "return" for x, lab in t.succ if lab == "T")]
+        if not fwd_:
+            raise AnalysisError(f"{q}.mouse_event: the forwarding call was not found")
+        for f in fwd_:
+            ok = bool(tests) and cfg.dominated(f, tests)
+            rr.inst(f"{short(fi)}", True, {"function": short(fi), "coordinate": coord, "bounds_tests": [norm(t.ast, 60) for t in tests], "on_every_path": ok})
+            if not ok:
+                path = cfg.witness_path(cfg.entry, [f], avoid=tests, labels=("n", "T", "F"))
+                via = next((norm(n.ast, 50) for n in reversed(path or []) if n.kind == "test"), "?")
+                rr.add(finding("GUARD", fi, f.stmt, f"`{norm(f.stmt, 60)}` is reachable (via `{via}`) without a bounds test of `{coord}`: on that size branch a click in the margin is delivered to the wrapped widget with a coordinate outside it (negative, or beyond its extent) instead of being refused", construct=f"{fi.name}: forwarded without a bounds test on a size branch"))
+    return rr
+
+
 def run(ctx: Ctx):
     p = ctx.p
     return [
@@ -512,6 +537,7 @@ def run(ctx: Ctx):
         optcall.run_optcall(p, "C09.11", ("urwid.widget",), floor=35),
         rule_hidden_columns(ctx),
         rule_scrollbar_side(ctx),
+        rule_hit_test_every_branch(ctx),
     ]
 
 
@@ -523,6 +549,7 @@ _PIL = "urwid/widget/pile.py"
 _COL = "urwid/widget/columns.py"
 _BOX = "urwid/widget/box_adapter.py"
 MUTANTS = [
+    Mut("padding-fixed-click-not-hit-tested", _PAD, "Padding.mouse_event", "            if col < left or col >= left + width:\n                return False\n", "", "GUARD|widget.padding.Padding.mouse_event"),
     Mut("columns-click-left-edge-by-index", "urwid/widget/columns.py", "Columns.mouse_event", "            if col < x:\n                return False", "            x = sum(widths[:i]) + i * self.dividechars\n            if col < x:\n                return False", "SIB|widget.columns.Columns.mouse_event|mouse_event: dividers counted per index"),
     Mut("columns-pref-col-by-index", "urwid/widget/columns.py", "Columns.get_pref_col", "            col = cwidth // 2\n            col += sum(self.dividechars + wc for wc in widths[: self.focus_position] if wc > 0)", "            col = cwidth // 2\n            col += self.focus_position * self.dividechars\n            col += sum(widths[: self.focus_position])", "SIB|widget.columns.Columns.get_pref_col"),
     Mut("scrollbar-left-click-unshifted", "urwid/widget/scrollable.py", "ScrollBar.mouse_event", "        if self._scrollbar_side == SCROLLBAR_LEFT:\n            # the wrapped widget is drawn to the right of the bar\n            col -= size[0] - ow_size[0]\n", "", "SIB|widget.scrollable.ScrollBar.mouse_event"),
